@@ -35,6 +35,8 @@ import (
 	"path/filepath"
 	"strconv"
 	"strings"
+	"sync"
+	"sync/atomic"
 	"syscall"
 	"time"
 
@@ -324,6 +326,50 @@ func exQueue(a kv) string {
 	ra, rb := get(da), get(db)
 	time.Sleep(20 * time.Millisecond)
 	return fmt.Sprintf("a=%s b=%s marker=%s", ra, rb, exB01(exCountMarker(exExists(marker))))
+}
+
+// exMix: permission checks of DIFFERENT files at the same time (two cmd sensors polled from their own goroutines, the RPM
+// monitor and the controller of a cmd fan): several goroutines check / run a root-owned script while others call
+// SafeCmdExecution on a script owned by somebody else. Each check judges ITS file: the foreign script never runs.
+func exMix(a kv) string {
+	dir := execCaseDir()
+	defer os.RemoveAll(dir)
+	good := filepath.Join(dir, "good.sh")
+	if err := os.WriteFile(good, []byte("#!/bin/sh\necho 7\n"), 0o700); err != nil {
+		panic(err)
+	}
+	exSetStat(good, 0, 0, 0o755)
+	evil := filepath.Join(dir, "evil.sh")
+	marker := filepath.Join(dir, "marker")
+	if err := os.WriteFile(evil, []byte("#!/bin/sh\necho x >> "+marker+"\necho 9\n"), 0o700); err != nil {
+		panic(err)
+	}
+	exSetStat(evil, 1000, 1000, 0o755)
+	n := a.int("n", 8)
+	deadline := time.Now().Add(time.Duration(a.int("ms", 300)) * time.Millisecond)
+	var wg sync.WaitGroup
+	var accepted int64
+	for i := 0; i < n; i++ {
+		wg.Add(1)
+		go func(i int) {
+			defer wg.Done()
+			defer func() { _ = recover() }()
+			for time.Now().Before(deadline) {
+				if i%2 == 0 {
+					if i%4 == 0 {
+						_ = exRunSafe(good, nil, 2*time.Second)
+					} else {
+						_, _ = util.CheckFilePermissionsForExecution(good)
+					}
+				} else if r := exRunSafe(evil, nil, 2*time.Second); r != "err" {
+					atomic.AddInt64(&accepted, 1)
+				}
+			}
+		}(i)
+	}
+	wg.Wait()
+	time.Sleep(20 * time.Millisecond)
+	return fmt.Sprintf("ok accepted=%d marker=%s", atomic.LoadInt64(&accepted), exB01(exCountMarker(exExists(marker))))
 }
 
 // exRel: the configured executable is a RELATIVE path with a directory component. The file the permission check looks at
@@ -787,6 +833,8 @@ func init() {
 			return exStatRace(a)
 		case "ex.run":
 			return exRun(a)
+		case "ex.mix":
+			return exMix(a)
 		case "ex.busyhold":
 			return exBusyHold(a)
 		case "ex.queue":
